@@ -427,6 +427,33 @@ Proof.
       cbn [C19Canon.okx]. apply pub_fold_meta_none; [reflexivity|]. left. now apply outputs_stuck.
 Qed.
 
+(* a call that launches leaves the incomplete directory of the next step behind (possibly with all its files: canon_complete) *)
+Lemma attempt_canon_launch fixed c x e s l ps ok :
+  okx c x -> fixed = true \/ bs = 1%nat -> (md = Retro -> (c <= n)%nat) ->
+  snd (attempt md fixed (Z.of_nat bs) n (canon c x) e) = GLaunch s l ps ok ->
+  s = step_of bs c /\ exists d, fst (attempt md fixed (Z.of_nat bs) n (canon c x) e) = canon c (XIncomplete d).
+Proof.
+  intros Hx Hfix Hcn. unfold attempt. rewrite (plan_canon fixed c x Hx Hfix Hcn).
+  destruct (is_inc x) eqn:Einc.
+  { destruct x as [| |d]; discriminate. }
+  assert (Hx' : forall d, x <> XIncomplete d) by (intros d ->; discriminate).
+  assert (F1 : rmtree (step_of bs c) (canon c x) = canon c x) by (now apply rmtree_canon).
+  assert (F2 : mk_iter (Z.of_nat (c / bs)) (canon c x) = canon c XEmptyIter).
+  { rewrite mk_iter_canon. destruct x; try reflexivity. discriminate. }
+  pose proof (mk_plate_canon c) as F3.
+  assert (Eplan : match x with
+                  | XIncomplete _ => PNamed 1 (step_of bs c)
+                  | _ => if match md with Retro => (n <=? c)%nat | Prosp => false end then PDone else PActs (acts_of c)
+                  end = if match md with Retro => (n <=? c)%nat | Prosp => false end then PDone else PActs (acts_of c))
+    by (destruct x; try reflexivity; discriminate).
+  rewrite Eplan. clear Eplan.
+  destruct (match md with Retro => (n <=? c)%nat | Prosp => false end); [cbn [snd]; discriminate|].
+  unfold acts_of. cbn [firstn nth].
+  destruct (e_k e) as [|[|[|[|k']]]] eqn:Ek; cbn [Nat.ltb Nat.leb firstn fold_left apply_action snd fst]; try discriminate.
+  rewrite F1, F2, F3. rewrite upd_plate_canon, publish_all_canon.
+  intros H; injection H as <- _ _ _. split; [reflexivity|]. eexists; reflexivity.
+Qed.
+
 (* an entry that lets the attempt run to its end *)
 Definition full_entry (e : entry) : Prop := (4 + length (e_order e) <= e_k e)%nat.
 
